@@ -93,6 +93,8 @@ def gen_plan(rng: random.Random, tier: str) -> dict:
         if x < 0.45:
             k += 1
             st = {"at": t, "op": "ssend", "tag": k, "name": "ping" if rng.random() < 0.25 else "chat",
+                  # what a ping says about the sender's oldest unacknowledged packet: nothing, itself, or beyond
+                  "oldest": rng.choice([0, 0, "self", "ahead"]),
                   "reliable": rng.random() < 0.6, "zerocoded": rng.random() < 0.3, "fate": fate}
             if rng.random() < 0.35:
                 st["acks"] = rng.randint(1, 3)
@@ -344,7 +346,11 @@ def run_plan(plan: dict) -> RunResult:
         def op_ssend(st):
             tag = st["tag"]
             if st["name"] == "ping":
-                body = b"\x01" + struct.pack("<B", tag & 0xFF) + struct.pack("<I", 0)
+                nxt = sim.next_pid if hasattr(sim, "next_pid") else 0
+                oldest = {0: 0, "self": nxt, "ahead": nxt + 5}.get(st.get("oldest", 0), 0)
+                if oldest:
+                    res.probe("ping_names_an_oldest_unacked_id")
+                body = b"\x01" + struct.pack("<B", tag & 0xFF) + struct.pack("<I", oldest)
             else:
                 body = G.chat_from_simulator_body("hi", from_name=f"#{tag}#", chat_type=1)
             acks = sim.pick_acks(st.get("acks", 0), reack=st.get("reack", False)) if st.get("acks") else []
